@@ -193,6 +193,15 @@ fn finish(o: &Opts, rep: Report, engines: &[&str], t0: Instant) -> i32 {
         }
         code = 2;
     }
+    // coverage floors: every oracle clause of the property must have been exercised
+    if code == 0 {
+        for k in required_clauses(&o.prop) {
+            if rep.exercised.get(*k).copied().unwrap_or(0) == 0 {
+                println!("INCONCLUSIVE property={} reason=oracle clause `{}` was never exercised by this run", o.prop, k);
+                code = 2;
+            }
+        }
+    }
     let distinct = rep.nontrivial.len() as u64;
     if code == 0 && (rep.evaluations == 0 || distinct < 2) {
         println!("INCONCLUSIVE property={} reason=too few non-trivial executions ({} of {})", o.prop, distinct, rep.evaluations);
@@ -281,6 +290,26 @@ fn finish(o: &Opts, rep: Report, engines: &[&str], t0: Instant) -> i32 {
         wall
     );
     code
+}
+
+fn required_clauses(prop: &str) -> &'static [&'static str] {
+    match prop {
+        "C04" => &["c04.subscription", "c04.relay"],
+        "C05" => &["c05.error-while-live"],
+        "C06" => &["pipe-macro-left-to-right-test", "stage map+flatten", "stage concat", "pipelines over an unbounded iterator"],
+        "C07" => &["c07.compare", "c07.take-complete", "c07.upstream-complete"],
+        "C08" => &["c08.greeting", "c08.late-greeter-after-over", "data-sequence", "fanin.completion", "fanin.pull-reaches-member"],
+        "C09" => &["c09.boundary", "c09.outstanding-pull", "data-sequence", "fanin.completion"],
+        "C10" => &["c10.greeting", "data-sequence", "fanin.completion", "fanin.pull-reaches-member"],
+        "C11" => &["c11.inner-emitted", "c11.switch", "c11.completion", "c11.pull-routing", "data-sequence"],
+        "C12" => &["c12.attach", "c12.detach", "c12.fanout", "c12.resubscription"],
+        "C13" => &["c13.solo-replays"],
+        "C14" => &["c14.prefix", "c14.quiescent"],
+        "C15" => &["c15.step", "c15.next-call", "c15.exhausted"],
+        "C16" => &["interval.ticks-delivered", "interval.cases-with-injected-spawn-failure", "interval.cases-with-disposal"],
+        "C18" | "C19" => &["hook-yield-points"],
+        _ => &[],
+    }
 }
 
 fn rule_text(prop: &str) -> String {
